@@ -62,9 +62,22 @@ func (er *entryReaderImpl) Read(now time.Time) ([]*entry, error) {
 	defer er.dagsLock.Unlock()
 
 	var entries []*entry
+	// Several schedules of one DAG may fall on the same minute: that is
+	// still one start (stop, restart) of the DAG for that minute.
+	type entryKey struct {
+		workflow *dag.DAG
+		e        entryType
+		next     time.Time
+	}
+	seen := map[entryKey]bool{}
 	addEntriesFn := func(workflow *dag.DAG, s []dag.Schedule, e entryType) {
 		for _, ss := range s {
 			next := ss.Parsed.Next(now)
+			key := entryKey{workflow: workflow, e: e, next: next}
+			if seen[key] {
+				continue
+			}
+			seen[key] = true
 			entries = append(entries, &entry{
 				Next:      ss.Parsed.Next(now),
 				Job:       er.jobCreator.CreateJob(workflow, next),
